@@ -52,7 +52,7 @@ func goFirst(x jp.Expr, data any, ordered bool) (o out) {
 	}
 	// First is FirstFound without the flag
 	f := x.First(data)
-	if ordered && found && canonOf(f) != o.val || !found && f != nil {
+	if ordered && (found && canonOf(f) != o.val || !found && f != nil) {
 		o.bad = "First differs from FirstFound"
 	}
 	return
